@@ -2,12 +2,13 @@ SPECIFICATION Spec
 CONSTANTS
   Sids <- SidsA
   ModelSessions = {1, 2}
-  Classes <- Classes6
+  Classes <- Classes5
   Cfgs <- CfgsAq
   ProbeLens <- Lens1235
   Dev_MaskBit7 = FALSE
   Dev_ShortLens = FALSE
   Dev_BreakOnLenErr = FALSE
+  Dev_BreakOnTimeout = FALSE
   Dev_CheckDoesNotRestore = FALSE
 INVARIANT TypeOK
 INVARIANT M0_Model
